@@ -47,7 +47,15 @@ func (i *InboundFee) CalcFee(amt lnwire.MilliSatoshi) int64 {
 
 	// Calculate proportional component. To keep the integer math simple,
 	// positive fees are rounded down while negative fees are rounded up.
-	fee += rate * int64(amt) / feeRateParts
+	//
+	// The amount is split into its whole and fractional multiples of
+	// feeRateParts so that the intermediate product cannot overflow an
+	// int64 for large amounts combined with large fee rates. Both partial
+	// terms carry the sign of the rate, so the sum is identical to
+	// rate * amt / feeRateParts evaluated with unbounded integers.
+	amtInt := int64(amt)
+	fee += rate * (amtInt / feeRateParts)
+	fee += rate * (amtInt % feeRateParts) / feeRateParts
 
 	return fee
 }
